@@ -246,7 +246,14 @@ pub fn panic_text(e: &Box<dyn std::any::Any + Send>) -> String {
 /// available from catch_unwind. Set VERIF_PANIC_TRACE=1 to keep the default hook.
 pub fn quiet_panics() {
     if std::env::var("VERIF_PANIC_TRACE").is_err() {
-        std::panic::set_hook(Box::new(|_| {}));
+        std::panic::set_hook(Box::new(|info| {
+            // panics raised by the harness's own code are machinery errors and must be visible
+            if let Some(loc) = info.location() {
+                if loc.file().starts_with("src/") {
+                    eprintln!("MACHINERY-ERROR: harness panic at {}:{}: {}", loc.file(), loc.line(), info);
+                }
+            }
+        }));
     }
 }
 
@@ -273,4 +280,48 @@ pub fn to_c64<T: Real>(v: &[C<T>]) -> Vec<C<f64>> {
 }
 pub fn from_c64<T: Real>(v: &[C<f64>]) -> Vec<C<T>> {
     v.iter().map(|c| C::new(T::from64(c.re), T::from64(c.im))).collect()
+}
+
+/// One fresh planner per (kind, n); both directions planned on it. Planning panics are reported through `on_panic`.
+pub fn instances<T: FftNum>(n: usize, planners: &[PK], mut on_panic: impl FnMut(PK, FftDirection, String)) -> Vec<(PK, FftDirection, Arc<dyn Fft<T>>)> {
+    let mut v = Vec::new();
+    for &pk in planners {
+        let mut pl = match AnyPlanner::<T>::new(pk) {
+            Some(p) => p,
+            None => continue,
+        };
+        for d in DIRS {
+            match plan_catch(&mut pl, n, d) {
+                Ok(f) => v.push((pk, d, f)),
+                Err(m) => on_panic(pk, d, m),
+            }
+        }
+    }
+    v
+}
+
+/// deterministic dense vector of length n (values in [-1,1)), distinct per salt
+pub fn dense_vec<T: Real>(n: usize, salt: u64) -> Vec<C<T>> {
+    let mut r = crate::util::Rng::new(0xD1CE ^ salt.wrapping_mul(0x9E3779B97F4A7C15) ^ (n as u64) << 20);
+    (0..n).map(|_| C::new(T::from64(r.sym()), T::from64(r.sym()))).collect()
+}
+
+pub fn l2<T: Real>(v: &[C<T>]) -> f64 {
+    crate::refdft::norm2(&to_c64(v))
+}
+pub fn l2_diff<T: Real>(a: &[C<T>], b: &[C<T>]) -> f64 {
+    let d: Vec<C<f64>> = a.iter().zip(b).map(|(x, y)| C::new(x.re.to64() - y.re.to64(), x.im.to64() - y.im.to64())).collect();
+    crate::refdft::norm2(&d)
+}
+pub fn finite<T: Real>(v: &[C<T>]) -> bool {
+    v.iter().all(|c| c.re.to64().is_finite() && c.im.to64().is_finite())
+}
+
+/// run a generic function for both float types
+#[macro_export]
+macro_rules! both_types {
+    ($f:ident ( $($arg:expr),* )) => {{
+        $f::<f32>($($arg),*);
+        $f::<f64>($($arg),*);
+    }};
 }
